@@ -31,7 +31,7 @@ LEVEL_NOTE = "Trusted: the from-scratch builders as reference; tolerance 1e-14 a
 def budget(tier):
     if tier == "quick":
         return dict(max_examples=250, workers=4, time_s=170, min_cases=80)
-    return dict(max_examples=8000, workers=16, time_s=1200, min_cases=2000)
+    return dict(max_examples=8000, workers=16, time_s=1200, min_cases=160)
 
 
 @st.composite
